@@ -46,10 +46,11 @@ class Tracer:
     """Records filesystem mutations under `root` made by this process."""
 
     def __init__(self, root: str, kill_at: int | None = None,
-                 log_fd: int | None = None) -> None:
+                 log_fd: int | None = None, snap_root: str | None = None) -> None:
         self.root = os.path.realpath(root)
         self.kill_at = kill_at
         self.log_fd = log_fd
+        self.snap_root = snap_root    # copy the tree before every mutation
         self.events: list[tuple] = []
         self.count = 0            # mutations executed since the start
         self.enabled = False
@@ -73,10 +74,23 @@ class Tracer:
             return
         if self.kill_at is not None and self.count >= self.kill_at:
             _real['exit'](KILL_STATUS)
+        if self.snap_root is not None:
+            self.snapshot_now()
         self.count += 1
         self.events.append(ev)
         if self.log_fd is not None:
             _real['write'](self.log_fd, (json.dumps(ev) + '\n').encode())
+
+    def snapshot_now(self) -> None:
+        """Copy the directory tree as it is at this instant: what a process
+        killed right now would leave behind (everything written so far is in
+        the kernel; nothing user-space-buffered is)."""
+        was, self.enabled = self.enabled, False
+        try:
+            shutil.copytree(self.root, os.path.join(self.snap_root, str(self.count)),
+                            symlinks=True)
+        finally:
+            self.enabled = was
 
     def _read(self, p: str):
         try:
@@ -626,7 +640,7 @@ def _rel(base: str, ev):
 
 
 def _child_reference(base: str, layout: str, history, out_path: str,
-                     tmpdir: str | None) -> None:
+                     tmpdir: str | None, snap_root: str | None = None) -> None:
     """Runs in a forked child: the full history with tracing and with a dump
     (tracer paused, second connection, EXAMINE) after every command."""
     import random
@@ -634,7 +648,7 @@ def _child_reference(base: str, layout: str, history, out_path: str,
     determinize()
     if tmpdir:
         tempfile.tempdir = tmpdir
-    tr = Tracer(base)
+    tr = Tracer(base, snap_root=snap_root)
     tr.install()
     pm = PathMap(os.path.join(base, 'u1'), layout)
     res: dict = {}
@@ -668,6 +682,8 @@ def _child_reference(base: str, layout: str, history, out_path: str,
                 break
         res['cmds'] = recs
         res['fs_final'] = snapshot(pm)
+        if snap_root is not None:
+            tr.snapshot_now()          # the state after the last operation
     try:
         run(go(), timeout=120)
     except BaseException as exc:      # reported by the parent
@@ -740,31 +756,46 @@ def _warm_up() -> None:
         shutil.rmtree(d, ignore_errors=True)
 
 
+def _recover_entry(base: str, layout: str, k: int) -> dict:
+    ent: dict = {'k': k}
+    locks = find_locks(base)
+    ent['locks'] = [p.replace(base, '/B') for p in locks]
+    ent['dump_raw'] = recover_dump(base, layout)
+    if locks:
+        age_locks(base)
+        ent['dump_aged'] = recover_dump(base, layout)
+    return ent
+
+
 def crash_experiment(args: dict) -> dict:
     """Worker entry (runs in a spawned process): one history on one layout.
-    args: layout, history, crossfs (bool), and either
-      ks = None            -> reference run only (full trace, dump after
-                              every command), or
-      ks = [k, ...], total -> for each k what a fresh server serves from the
-                              directory left by a process killed after k
-                              filesystem operations of the same history."""
+    args: layout, history, crossfs (bool), mode:
+      'ref'   reference run: full trace, a dump after every command and,
+              with snap_root, a copy of the directory before every
+              filesystem mutation (= what a kill at that point leaves);
+      'dump'  for each k in ks: what a fresh server serves from snap_root/k;
+      'kill'  for each k in ks: run the history in a forked child that ends
+              with os._exit before its (k+1)-th mutation, then dump."""
     layout, history = args['layout'], args['history']
+    mode = args.get('mode', 'ref')
     tmpdir = None
     _warm_up()
     res: dict = {'layout': layout, 'history': history, 'crossfs': bool(args.get('crossfs')),
-                 'id': args.get('id')}
+                 'id': args.get('id'), 'mode': mode}
     side = tempfile.mkdtemp(prefix='pvside-')
     if args.get('crossfs'):
         tmpdir = tempfile.mkdtemp(prefix='pvtmp-', dir='/dev/shm')
     try:
-        if args.get('ks') is None:
+        if mode == 'ref':
             base = tempfile.mkdtemp(prefix='pvref-')
             try:
                 out = os.path.join(side, 'ref.json')
-                rc = _fork(_child_reference, base, layout, history, out, tmpdir)
+                rc = _fork(_child_reference, base, layout, history, out, tmpdir,
+                           args.get('snap_root'))
                 res['ref_rc'] = rc
                 res['ref'] = json.load(_real['open'](out)) if os.path.exists(out) else None
                 res['ref_locks'] = [p.replace(base, '/B') for p in find_locks(base)]
+                res['base'] = base
             finally:
                 shutil.rmtree(base, ignore_errors=True)
             if res['ref'] and 'cmds' in res['ref']:
@@ -772,20 +803,25 @@ def crash_experiment(args: dict) -> dict:
             return res
         res['crashes'] = []
         for k in args['ks']:
+            if mode == 'dump':
+                snap = os.path.join(args['snap_root'], str(k))
+                if not os.path.isdir(snap):
+                    res['crashes'].append({'k': k, 'missing': True})
+                    continue
+                ent = _recover_entry(snap, layout, k)
+                # paths inside the snapshot -> the names of the original run
+                ent['locks'] = [p for p in ent['locks']]
+                res['crashes'].append(ent)
+                continue
             base = tempfile.mkdtemp(prefix='pvkill-')
             try:
                 log = os.path.join(side, f'log{k}.jsonl')
                 ack = os.path.join(side, f'ack{k}.jsonl')
                 rc = _fork(_child_killed, base, layout, history, k, log, ack, tmpdir)
-                ent: dict = {'k': k, 'rc': rc,
-                             'trace': [_rel(base, tuple(e)) for e in _read_jsonl(log)],
-                             'acks': _read_jsonl(ack)}
-                locks = find_locks(base)
-                ent['locks'] = [p.replace(base, '/B') for p in locks]
-                ent['dump_raw'] = recover_dump(base, layout)
-                if locks:
-                    age_locks(base)
-                    ent['dump_aged'] = recover_dump(base, layout)
+                ent = _recover_entry(base, layout, k)
+                ent.update({'rc': rc, 'killed': True,
+                            'trace': [_rel(base, tuple(e)) for e in _read_jsonl(log)],
+                            'acks': _read_jsonl(ack)})
                 res['crashes'].append(ent)
             finally:
                 shutil.rmtree(base, ignore_errors=True)
@@ -808,23 +844,65 @@ def run_experiments(jobs: list[dict], workers: int = 12) -> list[dict]:
         return list(ex.map(crash_experiment, jobs))
 
 
-def crash_campaign(jobs: list[dict], pick_ks, workers: int = 12, chunk: int = 6) -> list[dict]:
-    """Phase 1: the reference run of every job (layout, history, crossfs).
-    Phase 2: kill runs for the crash points `pick_ks(total_ops)` chooses,
-    spread over the workers in chunks.  Returns the reference results, each
-    with a 'crashes' list sorted by k."""
-    refs = run_experiments([dict(j, ks=None, id=i) for i, j in enumerate(jobs)], workers)
-    kill_jobs = []
-    for r in refs:
-        r['crashes'] = []
-        if not r.get('ref') or 'cmds' not in r['ref'] or r['ref'].get('error'):
-            continue
-        ks = sorted(set(k for k in pick_ks(r['total_ops']) if 0 <= k <= r['total_ops']))
-        for i in range(0, len(ks), chunk):
-            kill_jobs.append({'layout': r['layout'], 'history': r['history'],
-                              'crossfs': r['crossfs'], 'ks': ks[i:i + chunk], 'id': r['id']})
-    for kr in run_experiments(kill_jobs, workers):
-        refs[kr['id']]['crashes'] += kr['crashes']
-    for r in refs:
-        r['crashes'].sort(key=lambda c: c['k'])
-    return refs
+def acked_at(ref: dict, k: int) -> int:
+    """Number of commands answered before the (k+1)-th operation starts."""
+    n = 0
+    for j, c in enumerate(ref['cmds']):
+        if n + len(c['events']) > k:
+            return j
+        n += len(c['events'])
+    return len(ref['cmds'])
+
+
+def crash_campaign(jobs: list[dict], pick_ks, pick_kills=None, workers: int = 12,
+                   chunk: int = 8) -> list[dict]:
+    """Phase 1: the reference run of every job (layout, history, crossfs),
+    copying the directory before every filesystem mutation.
+    Phase 2: a fresh server is started on the copies `pick_ks(total)` selects
+    (the state a kill at that operation boundary leaves), and — for the
+    points `pick_kills(total)` selects — on the directory left by a child
+    process that really was ended there with os._exit.
+    Returns the reference results with 'crashes' (from the copies, each with
+    'acked') and 'kills' (from real kills) sorted by k."""
+    roots = []
+    try:
+        for j in jobs:
+            roots.append(tempfile.mkdtemp(prefix='pvsnap-'))
+        refs = run_experiments([dict(j, mode='ref', id=i, snap_root=roots[i])
+                                for i, j in enumerate(jobs)], workers)
+        todo = []
+        for r in refs:
+            r['crashes'], r['kills'] = [], []
+            if not r.get('ref') or 'cmds' not in r['ref'] or r['ref'].get('error'):
+                continue
+            total = r['total_ops']
+            ks = sorted(set(k for k in pick_ks(total) if 0 <= k <= total))
+            for i in range(0, len(ks), chunk):
+                todo.append({'layout': r['layout'], 'history': r['history'], 'mode': 'dump',
+                             'crossfs': r['crossfs'], 'ks': ks[i:i + chunk], 'id': r['id'],
+                             'snap_root': roots[r['id']]})
+            kk = sorted(set(k for k in (pick_kills(total) if pick_kills else [])
+                            if 0 <= k <= total))
+            for k in kk:
+                todo.append({'layout': r['layout'], 'history': r['history'], 'mode': 'kill',
+                             'crossfs': r['crossfs'], 'ks': [k], 'id': r['id']})
+        for kr in run_experiments(todo, workers):
+            tgt = refs[kr['id']]
+            if kr['mode'] == 'dump':
+                for c in kr['crashes']:
+                    if c.get('missing'):
+                        continue
+                    c['acked'] = acked_at(tgt['ref'], c['k'])
+                    c['locks'] = [re.sub(r'^.*?/pvsnap-[^/]+/\d+', '/B', p) for p in c['locks']]
+                    tgt['crashes'].append(c)
+            else:
+                for c in kr['crashes']:
+                    c['acked'] = len(c['acks'])
+                    tgt['kills'].append(c)
+        for r in refs:
+            r['crashes'].sort(key=lambda c: c['k'])
+            r['kills'].sort(key=lambda c: c['k'])
+        return refs
+    finally:
+        for d in roots:
+            shutil.rmtree(d, ignore_errors=True)
